@@ -46,6 +46,12 @@ def cases(tier, seed, shard, nshards):
                      "num_operators": rng.choice([1, 2, 5, 12, 30]), "cpu_io_ratio": rng.choice([0, 0.25, 0.5, 0.75, 1]),
                      "interactive_prob": iq[0], "query_prob": iq[1], "batch_prob": iq[2]},
                "events": rng.choice([60, 150, 300])}
+    if tier == "thorough" or shard < 3:
+        # one generator stepped for a long time: > 10,000 events, > 20,000 pipelines, ids far beyond p9999
+        yield {"kind": "gen", "seed": rng.randint(0, 2 ** 31), "tps": rng.choice([10, 100]),
+               "p": {"waiting_seconds_mean": 0.3, "num_pipelines": 2, "num_operators": 2, "cpu_io_ratio": 0.5,
+                     "interactive_prob": 0.3, "query_prob": 0.3, "batch_prob": 0.4},
+               "events": 12000 if tier == "quick" else 60000, "_long": True}
     for i in range(2 if tier == "quick" else 12):
         tps = rng.choice([10, 100, 1000])
         yield {"kind": "ratio", "seed": rng.randint(0, 2 ** 31), "tps": tps,
@@ -154,7 +160,7 @@ def run_case(case, mon):
     g, p = make(case)
     tps = case["tps"]
     wticks = int(p["waiting_seconds_mean"] * tps)
-    max_ticks = min(150000, (max(1, wticks) * 3 + 3) * case["events"])
+    max_ticks = min(150000 if not case.get("_long") else 2000000, (max(1, wticks) * 3 + 3) * case["events"])
     events, ranks = collect(g, p, case["events"], max_ticks, mon)
     mon.count("events", len(events))
     if not events:
